@@ -48,9 +48,11 @@ class ShardResult:
         "samples",
         "extra",
         "n_deviations",
+        "known_hits",
     )
 
     MAX_DEV = 400
+    KNOWN = []  # [(finding id, matcher)], installed by the worker so that known findings never consume the cap
 
     def __init__(self):
         self.states = set()  # canonical state hashes (ints)
@@ -61,6 +63,7 @@ class ShardResult:
         self.outcomes = collections.Counter()  # op -> number of distinct... (filled via note())
         self.samples = []
         self.extra = collections.Counter()
+        self.known_hits = collections.Counter()
 
     def state(self, canon):
         self.states.add(h64(canon))
@@ -79,6 +82,14 @@ class ShardResult:
         self.n_deviations += 1
         d = {"op": op, "case": case, "observed": observed, "expected": expected, "sig": sig or op}
         d.update(kw)
+        for fid, m in self.KNOWN:
+            try:
+                ok = bool(m(d))
+            except Exception:
+                ok = False
+            if ok:
+                self.known_hits[fid] += 1
+                return
         if len(self.deviations) < self.MAX_DEV:
             self.deviations.append(d)
         else:
@@ -97,6 +108,12 @@ def _worker(args):
     import importlib
 
     mod = importlib.import_module(modname)
+    matchers = getattr(mod, "MATCHERS", {})
+    ShardResult.KNOWN = [
+        (f["id"], matchers[f["matcher"]])
+        for f in load_known_findings(mod.PROPERTY)
+        if f.get("status", "known") == "known" and f["matcher"] in matchers
+    ]
     bootstrap.clear_global_caches()
     t0 = time.time()
     try:
@@ -114,6 +131,7 @@ def _worker(args):
         "outcomes": res.outcomes,
         "samples": res.samples,
         "extra": res.extra,
+        "known_hits": res.known_hits,
         "wall": time.time() - t0,
         "shard": shard,
     }
@@ -154,6 +172,7 @@ def run_check(mod, tier, seed, jobs=None, replay_confirm=True):
     extra = collections.Counter()
     samples = []
     errors = []
+    matched = collections.Counter()
     ctx = mp.get_context("fork")
     if jobs == 1:
         results = map(_worker, [(mod.__name__, s) for s in shards])
@@ -173,6 +192,7 @@ def run_check(mod, tier, seed, jobs=None, replay_confirm=True):
         n_dev += r["n_deviations"]
         outcomes.update(r["outcomes"])
         extra.update(r["extra"])
+        matched.update(r["known_hits"])
         if len(samples) < 6:
             samples.extend(r["samples"][: 6 - len(samples)])
         shard_walls.append(r["wall"])
@@ -188,7 +208,6 @@ def run_check(mod, tier, seed, jobs=None, replay_confirm=True):
     # ---- verdicts --------------------------------------------------------------------------------
     findings = load_known_findings(prop)
     matchers = getattr(mod, "MATCHERS", {})
-    matched = collections.Counter()
     unmatched = []
     for d in deviations:
         hit = None
